@@ -44,8 +44,55 @@ PROPERTY = {
     "level": "proof",
     "trusted": ["heap typing of the fields declared in specs/C12.py and specs/common.py"],
     "assumptions": COMMON_ASSUMPTIONS + [
+        "configuration: clusters of 3..5 nodes (class invariant cluster-of-3-to-5: 2..4 peers); peers carry distinct "
+        "names different from the node's own",
+        "well-formed messages: every handler requires the keys its sender writes (ballot_number/ballot_node, value, from, "
+        "accepted_* of a promise, original_ballot of a retry) - the senders' contracts in this file establish them; "
+        "the network may delay, reorder, drop and partition but neither forges nor duplicates messages",
+        "start_phase1() is invoked at most once per ballot (Kick/propose once, _handle_retry once per fresh ballot), so the "
+        "promises recorded for a ballot come from distinct acceptors; the count is len(list), distinctness of promisers is "
+        "not re-checked by the code (A3 distinctness of *acceptors* is: a set per ballot after the repair)",
+        "SimFuture.resolve (stub): the first resolve fixes the value, later ones are ignored; resuming a parked process is "
+        "engine machinery outside this property",
+        "random.random() returns a real in [0, 1) (stub); retry_delay >= 0 (precondition of _handle_nack)",
+        "PaxosNode._start_phase2 is used as a contract inside _handle_promise: what is assumed after the call is exactly the "
+        "class invariants, the two-state guarantees and the frame proved by the tasks PaxosNode._start_phase2[k-nodes]",
+        "promise records are dict literals with exactly the keys from/accepted_ballot/accepted_value (type FixedRec: storing "
+        "any other key set is OUT-OF-REACH, so the typing is checked, not assumed)",
+        "constructor contract of FlexiblePaxosNode: Entity.__init__ is reduced to `self.name = name` (the detached state "
+        "`_clock = None` is outside the attached-entity typing of specs/common.py)",
+        "DistributedLock._grant_lock: the state passed in belongs to this manager or is fresh (its token is below the "
+        "counter) and lease_duration >= 0",
+        "cross-node composition (agreement = A1 + A2 + A3 + quorum intersection, validity = value provenance clauses) is the "
+        "classical Paxos argument over the proved per-node clauses; it is not machine-checked.  Liveness clauses of the "
+        "statement (eventually decided / applied) are not decided by this check; the bounded stand-in only observes that "
+        "every sampled run reaches a decision",
     ],
+    "task_timeout": 600,
 }
+
+
+def _native_paxos_runs(seed, tier):
+    """bounded stand-in: the real PaxosNode cluster inside a real Simulation (fresh interpreter, no proxies)"""
+    import json
+    import os
+    import subprocess
+    n = 120 if tier == "quick" else 1500
+    env = dict(os.environ, PYTHONPATH=_ctx.REPO)
+    p = subprocess.run(["/venv/bin/python", "/verif/findings/c12_paxos.py", "--json", str(seed), str(seed + n)],
+                       capture_output=True, text=True, timeout=900, env=env, cwd="/verif")
+    for ln in p.stdout.splitlines():
+        if ln.startswith("C12-RESULT "):
+            return json.loads(ln[len("C12-RESULT "):])
+    raise RuntimeError(f"native Paxos stand-in failed: {p.stderr[-600:]}")
+
+
+PROPERTY["bounded"] = [{
+    "name": "paxos-cluster-random-delays",
+    "bound": "120 (quick) / 1500 (thorough) seeds x {(3 nodes, 2 proposers), (3,3), (4,3), (5,2), (5,3)}: per-message delay "
+             "drawn from {0.01, 0.05, 0.2, 0.6, 1.5} s, proposal times from {0, 0.02, 0.1, 0.3} s, retry_delay 0.3 s, 20 s horizon; "
+             "checks agreement, validity (decided value was proposed) and stability after every event",
+    "fn": _native_paxos_runs}]
 
 
 # ============================================================================ 0. message typing
@@ -286,7 +333,7 @@ def b_eq(a, b):
 for _op, _spec_fn in (("__lt__", lambda s: b_lt(s.self, s.other)), ("__le__", lambda s: b_le(s.self, s.other)),
                       ("__gt__", lambda s: b_lt(s.other, s.self)), ("__ge__", lambda s: b_le(s.other, s.self)),
                       ("__eq__", lambda s: b_eq(s.self, s.other))):
-    fn(Ballot, _op, self_ty=BALLOT, args={"other": BALLOT}, inv=False, ensures=[
+    fn(Ballot, _op, self_ty=BALLOT, args={"other": BALLOT}, returns=Bool, inv=False, ensures=[
         ("lexicographic-on-number-then-node", lambda s, f=_spec_fn: iff(s.result, f(s)))])
 
 
@@ -487,6 +534,11 @@ NODE_INV = [
     ("accepted-ballot-never-above-promise", lambda o: ob_le(accepted(o), promised(o))),
     ("own-ballots-carry-own-name", lambda o: o._current_ballot.node_id == o.name),
     ("every-offered-ballot-has-its-acceptor-set", offered_ballots_have_acceptor_sets),
+    ("registered-ballots-are-not-above-the-current-one", lambda o: forall(Int, lambda b: implies(
+        mk_bool(map_has(SENT, field_term(o, "_proposed_values"), b)), b <= o._current_ballot.number), "b")),
+    # (so a fresh ballot - always above the current one - starts with no offer on record)
+    ("offered-ballots-are-not-above-the-current-one", lambda o: forall(Int, lambda b: implies(
+        mk_bool(map_has(SENT, sent_accept(o), b)), b <= o._current_ballot.number), "b")),
 ]
 NODE_GUAR = [
     ("A1-promise-never-decreases", lambda old, new: ob_le(promised(old), promised(new))),
@@ -751,21 +803,24 @@ def phase2_effect(s, b, es):
     me = own_ballot(new, b)
     resp = responses(new, b)
     may_self_accept = mk_bool(z3.Or(OB.is_none(promised(old)), z3.Not(bt_lt(me, OB.val(promised(old))))))
+    # the first clause is the heart of A2; the others describe a phase 2 that started legitimately (they are
+    # stated under that hypothesis so that a violation of the first is reported once, not six times)
+    legit = (Not(mk_bool(map_has(SENT, sent_accept(old), b))) & mk_bool(map_has(SENT, field_term(old, "_proposed_values"), b))
+             & mk_bool(map_has(SENT, sent_accept(new), b)))
     return [
-        ("A2-phase-2-of-a-ballot-starts-only-once-and-only-while-the-ballot-is-still-registered",
-         Not(mk_bool(map_has(SENT, sent_accept(old), b))) & mk_bool(map_has(SENT, field_term(old, "_proposed_values"), b))),
-        ("A2-phase-2-needs-a-quorum-of-promises", mk_bool(z3.Length(resp) >= num(quorum(new)))),
+        ("A2-phase-2-of-a-ballot-starts-only-once--only-while-the-ballot-is-still-registered--and-records-its-offer", legit),
+        ("A2-phase-2-needs-a-quorum-of-promises", implies(legit, mk_bool(z3.Length(resp) >= num(quorum(new))))),
         ("A2-every-peer-is-offered-the-one-recorded-value-under-the-own-ballot",
-         mk_bool(map_has(SENT, sent_accept(new), b)) & one_per_peer(s, "PaxosAccept", lambda m: (
-             mhas(m, "value", *BALLOT_KEYS) & mk_bool(bt_eq(msg_ballot(m), me)) & mk_bool(M.f_value(m) == v)), es)),
+         implies(legit, one_per_peer(s, "PaxosAccept", lambda m: (
+             mhas(m, "value", *BALLOT_KEYS) & mk_bool(bt_eq(msg_ballot(m), me)) & mk_bool(M.f_value(m) == v)), es))),
         ("A2-offered-value-is-that-of-the-highest-accepted-ballot-among-the-promises-else-the-registered-one",
-         pick_ok(new, resp, mk_num(z3.Length(resp)), new.g_pick, Any.wrap(v), registered_value(old, b))),
-        ("A1-proposer-accepts-its-own-offer-only-if-not-below-its-promise", ite_b(
+         implies(legit, pick_ok(new, resp, mk_num(z3.Length(resp)), new.g_pick, Any.wrap(v), registered_value(old, b)))),
+        ("A1-proposer-accepts-its-own-offer-only-if-not-below-its-promise", implies(legit, ite_b(
             may_self_accept,
-            holds_ballot(accepted(new), me) & mk_bool(field_term(new, "_accepted_value") == v)
+            holds_ballot(accepted(new), me) & holds_ballot(promised(new), me) & mk_bool(field_term(new, "_accepted_value") == v)
             & mk_bool(accepters(new, b) == z3.Store(EMPTY_STRS, zs(new.name), z3.BoolVal(True))),
-            unchanged(s, new, "_accepted_ballot", "_accepted_value") & mk_bool(accepters(new, b) == EMPTY_STRS))),
-        ("A3-no-decision-without-a-quorum-of-acceptances", iff(new._decided, old._decided)),
+            unchanged(s, new, "_accepted_ballot", "_accepted_value", "_promised_ballot") & mk_bool(accepters(new, b) == EMPTY_STRS)))),
+        ("A3-no-decision-without-a-quorum-of-acceptances", implies(legit, iff(new._decided, old._decided))),
     ]
 
 
@@ -782,9 +837,7 @@ def _start_phase2_clause(i):
 
 
 def _p2_names():
-    class _S:       # names only
-        pass
-    return ["A2-phase-2-of-a-ballot-starts-only-once-and-only-while-the-ballot-is-still-registered",
+    return ["A2-phase-2-of-a-ballot-starts-only-once--only-while-the-ballot-is-still-registered--and-records-its-offer",
             "A2-phase-2-needs-a-quorum-of-promises",
             "A2-every-peer-is-offered-the-one-recorded-value-under-the-own-ballot",
             "A2-offered-value-is-that-of-the-highest-accepted-ballot-among-the-promises-else-the-registered-one",
@@ -798,9 +851,348 @@ def nothing_offered(s):
                      "_phase2_acceptors", "_decided", "_decided_value")
 
 
-fn(PaxosNode, "_start_phase2", args={"ballot_number": Int}, uses=[FUT_RESOLVE],
+BALLOT_GE = (Ballot, "__ge__")      # proved above; used as a contract so that one comparison is one fork
+
+
+def per_cluster_size(name, **kw):
+    """one task per cluster size 3, 4, 5 (the peers are iterated natively; splitting keeps each task's path count
+    small and lets the sizes run in parallel)"""
+    req = list(kw.pop("requires", []))
+    for k in (2, 3, 4):
+        fn(PaxosNode, name, label=f"{k + 1}-nodes",
+           requires=req + [(f"cluster-of-{k + 1}", lambda s, k=k: slen(s.self._peers) == k)], **kw)
+
+
+per_cluster_size("_start_phase2", args={"ballot_number": Int}, uses=[FUT_RESOLVE, BALLOT_GE],
    requires=[("called-for-a-ballot-in-phase-1-with-a-quorum-of-promises", lambda s: contains(s.self._phase1_responses, s.ballot_number)
               & mk_bool(z3.Length(responses(s.self, s.ballot_number)) >= num(quorum(s.self))))],
    ensures=[(n, _start_phase2_clause(i)) for i, n in enumerate(_p2_names())] + [
     ("without-an-offer-nothing-changes", lambda s: True if len(msgs(s)) else nothing_offered(s)),
-    ("promises-and-ballot-untouched", lambda s: unchanged(s, s.self, "_phase1_responses", "_current_ballot", "_promised_ballot"))])
+    ("recorded-promises-and-current-ballot-untouched", lambda s: unchanged(s, s.self, "_phase1_responses", "_current_ballot"))])
+
+
+# ---- proposer: recording promises --------------------------------------------------------------------
+def promise_rec(frm_t, ab_t, val_t):
+    """raw PROMISE record from raw Opt(Str), Opt((Int,Str)), Any terms"""
+    return PROMISE.dt.mk(frm_t, ab_t, val_t)
+
+
+def appended(new_seq, old_seq, rec):
+    return mk_bool(new_seq == z3.Concat(old_seq, z3.Unit(rec)))
+
+
+def _promise_recorded(s):
+    old, req = s.old(s.self), md(s.old(s.event))
+    b = mget(req, "ballot_number")
+    known = mk_bool(map_has(P1, field_term(old, "_phase1_responses"), b))
+    abn, abnode = M.f_accepted_ballot_number(req), M.f_accepted_ballot_node(req)
+    ab = z3.If(OPTINT.dt.is_none(abn), OBT.none, OBT.some(BTUP.dt.mk(OPTINT.dt.val(abn), OPTSTR.dt.val(abnode))))
+    frm = z3.If(MSG.has(req, "from"), OPTSTR.dt.some(M.f_from(req)), OPTSTR.dt.none)
+    return ite_b(known,
+                 appended(responses(s.self, b), responses(old, b), promise_rec(frm, ab, M.f_accepted_value(req))),
+                 unchanged(s, s.self) & pb(isinstance(s.result, list) and len(s.result) == 0))
+
+
+# Inside _handle_promise the call of _start_phase2 is replaced by its contract: the precondition (a quorum of
+# promises is recorded for that ballot) becomes the call-site obligation `call:PaxosNode._start_phase2/...`;
+# what is assumed after the call is only what the three per-size tasks above prove at their exit: the class
+# invariants, the two-state guarantees (A1, A2, A3 stability) and the frame.
+P2_WRITES = ["_proposed_values", "_accept_sent", "_phase2_acceptors", "_phase2_responses", "_promised_ballot",
+             "_accepted_ballot", "_accepted_value", "g_pick", "_decided", "_decided_value", "_proposals_succeeded"]
+stub_of(PaxosNode, "_start_phase2", args={"ballot_number": Int}, returns=Seq(Ref(Event)), modifies=P2_WRITES,
+        requires=[("called-for-a-ballot-in-phase-1-with-a-quorum-of-promises", lambda s: contains(s.self._phase1_responses, s.ballot_number)
+                   & mk_bool(z3.Length(responses(s.self, s.ballot_number)) >= num(quorum(s.self))))],
+        ensures=[(lambda s, f=f: f(s.self)) for _n, f in NODE_INV]
+        + [(lambda s, f=f: f(s.old(s.self), s.self)) for _n, f in NODE_GUAR])
+START_PHASE2 = (PaxosNode, "_start_phase2")
+
+
+def phase2_calls():
+    return [1 for (q, _v, _r) in _ctx.cur().ghost_args.get("trace", []) if q == "PaxosNode._start_phase2"]
+
+
+fn(PaxosNode, "_handle_promise", args={"event": Ref(Event)}, uses=[START_PHASE2],
+   requires=[("well-formed-promise", lambda s: mhas(md(s.event), "ballot_number", "from", "accepted_ballot_number", "accepted_value")
+              & mk_bool(z3.Or(OPTINT.dt.is_none(M.f_accepted_ballot_number(md(s.event))),
+                              z3.And(MSG.has(md(s.event), "accepted_ballot_node"),
+                                     z3.Not(OPTSTR.dt.is_none(M.f_accepted_ballot_node(md(s.event))))))))],
+   ensures=[
+    ("promise-for-a-known-ballot-is-recorded-exactly-as-reported--others-are-ignored", _promise_recorded),
+    ("without-phase-2-acceptor-learner-and-offer-state-are-untouched", lambda s: True if phase2_calls() else nothing_offered(s)),
+    ("current-ballot-untouched", lambda s: unchanged(s, s.self, "_current_ballot"))])
+
+
+# ---- learner: counting acceptances (A3) --------------------------------------------------------------
+def _accepted_post(s):
+    old, new, req = s.old(s.self), s.self, md(s.old(s.event))
+    b, frm = mget(req, "ballot_number"), mget(req, "from")
+    offered = mk_bool(map_has(SENT, sent_accept(old), b))
+    newly = new._decided & Not(old._decided)
+    v = map_val(SENT, sent_accept(old), b)
+    es = msgs(s)
+    counted = (mk_bool(accepters(new, b) == z3.Store(accepters(old, b), zs(frm), z3.BoolVal(True)))
+               & (n_accepters(new, b) == n_accepters(old, b) + ite(mk_bool(z3.Select(accepters(old, b), zs(frm))), 0, 1)))
+    ok_decision = (offered & (n_accepters(new, b) >= quorum(new)) & mk_bool(field_term(new, "_decided_value") == v)
+                   & one_per_peer(s, "PaxosDecided", lambda m: decided_msg(m, Any.wrap(v)), es))
+    for x in resolved_values():
+        ok_decision = ok_decision & mk_bool(Any.unwrap(x) == v)
+    return [
+        ("acceptance-of-a-ballot-this-node-never-offered-is-ignored", implies(Not(offered), unchanged(
+            s, new, "_phase2_acceptors", "_decided", "_decided_value") & pb(len(es) == 0))),
+        ("each-acceptor-is-counted-once-per-ballot", implies(offered, counted)),
+        ("A3-decides-only-on-a-quorum-of-distinct-acceptors-and-only-the-value-offered-for-that-ballot",
+         implies(newly, ok_decision)),
+        ("no-announcement-without-a-new-decision", implies(Not(newly), pb(len(es) == 0) & pb(len(resolved_values()) == 0))),
+    ]
+
+
+per_cluster_size("_handle_accepted", args={"event": Ref(Event)}, uses=[FUT_RESOLVE],
+   requires=[("well-formed-accepted", lambda s: mhas(md(s.event), "ballot_number", "from"))],
+   ensures=[(n, (lambda s, i=i: _accepted_post(s)[i][1])) for i, n in enumerate([
+       "acceptance-of-a-ballot-this-node-never-offered-is-ignored",
+       "each-acceptor-is-counted-once-per-ballot",
+       "A3-decides-only-on-a-quorum-of-distinct-acceptors-and-only-the-value-offered-for-that-ballot",
+       "no-announcement-without-a-new-decision"])] + [
+    ("acceptor-state-and-offers-untouched", lambda s: unchanged(
+        s, s.self, "_promised_ballot", "_accepted_ballot", "_accepted_value", "_accept_sent", "_current_ballot", "_proposed_values"))])
+
+
+# ---- proposer: phase 1 (own promise, prepares, nack, retry) --------------------------------------------
+def ballot_term(b):
+    """raw Ballot term of a Ballot object"""
+    return BALLOT.unwrap(b)
+
+
+def own_accepted_rec(o, me_name):
+    """raw PROMISE record reporting node o's accepted (ballot, value), as _handle_prepare_internal builds it"""
+    a = accepted(o)
+    av = OB.val(a)
+    ab = z3.If(OB.is_none(a), OBT.none, OBT.some(BTUP.dt.mk(BD.number(av), BD.node_id(av))))
+    return promise_rec(OPTSTR.dt.some(zs(me_name)), ab, field_term(o, "_accepted_value"))
+
+
+def self_promise_effect(s, bt, n):
+    """the node treats its own Prepare like any acceptor: it promises raw ballot bt (number n) unless it has promised
+    a higher one, and records its own promise - reporting its accepted ballot and value - when n is a ballot of its own"""
+    old, new = s.old(s.self), s.self
+    may = mk_bool(z3.Or(OB.is_none(promised(old)), z3.Not(bt_lt(bt, OB.val(promised(old))))))
+    tracked = mk_bool(map_has(P1, field_term(old, "_phase1_responses"), n))
+    return ite_b(may,
+                 holds_ballot(promised(new), bt)
+                 & ite_b(tracked, appended(responses(new, n), responses(old, n), own_accepted_rec(old, new.name)),
+                         unchanged(s, new, "_phase1_responses")),
+                 unchanged(s, new, "_promised_ballot", "_phase1_responses"))
+
+
+PROPOSER_MAPS = ("_proposed_values", "_accept_sent", "_phase2_acceptors", "_proposal_futures")
+fn(PaxosNode, "_handle_prepare_internal", args={"ballot": BALLOT}, uses=[BALLOT_GE], ensures=[
+    ("A1-own-prepare-is-promised-like-any-other-and-the-own-promise-reports-the-accepted-ballot-and-value",
+     lambda s: self_promise_effect(s, ballot_term(s.ballot), s.ballot.number)),
+    ("accepted-learner-and-offer-state-untouched", lambda s: unchanged(
+        s, s.self, "_accepted_ballot", "_accepted_value", "_decided", "_decided_value", "_current_ballot", *PROPOSER_MAPS))])
+
+
+def prepares_ok(s, es, bt):
+    return one_per_peer(s, "PaxosPrepare", lambda m: mhas(m, *BALLOT_KEYS) & mk_bool(bt_eq(msg_ballot(m), bt)), es)
+
+
+per_cluster_size("start_phase1", uses=[BALLOT_GE], ensures=[
+    ("every-peer-is-sent-one-prepare-for-the-current-ballot", lambda s: prepares_ok(
+        s, msgs(s), ballot_term(s.old(s.self)._current_ballot))),
+    ("own-promise", lambda s: self_promise_effect(s, ballot_term(s.old(s.self)._current_ballot), s.old(s.self)._current_ballot.number)),
+    ("accepted-learner-and-offer-state-untouched", lambda s: unchanged(
+        s, s.self, "_accepted_ballot", "_accepted_value", "_decided", "_decided_value", "_current_ballot", *PROPOSER_MAPS))])
+
+stub_of("random", "random", returns=Real, ensures=[lambda s: (0 <= s.result) & (s.result < 1)])
+RANDOM = ("random", "random")
+
+
+def _nack_post(s):
+    old, new, req = s.old(s.self), s.self, md(s.old(s.event))
+    b = mget(req, "ballot_number")
+    hi = mk_num(z3.If(MSG.has(req, "highest_ballot_number"), M.f_highest_ballot_number(req), z3.IntVal(0)))
+    es = msgs(s)
+    live = mk_bool(map_has(SENT, field_term(old, "_proposed_values"), b))
+    ok = (new._current_ballot.number == ite(hi > old._current_ballot.number, hi, old._current_ballot.number))
+    if len(es) == 0:
+        return ok & Not(live)
+    e = es[0]
+    return (ok & live & pb(len(es) == 1) & (e.event_type == "PaxosRetry") & same(e.target, new)
+            & mhas(md(e), "original_ballot") & (mget(md(e), "original_ballot") == b))
+
+
+fn(PaxosNode, "_handle_nack", args={"event": Ref(Event)}, uses=[RANDOM],
+   requires=[("well-formed-nack", lambda s: mhas(md(s.event), "ballot_number")),
+             ("retry-delay-nonnegative", lambda s: s.self._retry_delay >= 0)],
+   ensures=[
+    ("ballot-counter-catches-up-and-one-retry-is-scheduled-for-a-still-registered-ballot", _nack_post),
+    ("acceptor-learner-and-offer-state-untouched", lambda s: unchanged(
+        s, s.self, "_promised_ballot", "_accepted_ballot", "_accepted_value", "_decided", "_decided_value",
+        "_phase1_responses", *PROPOSER_MAPS))])
+
+
+def _retry_post(s):
+    old, new, req = s.old(s.self), s.self, md(s.old(s.event))
+    b = mget(req, "original_ballot")
+    live = Not(old._decided) & mk_bool(map_has(SENT, field_term(old, "_proposed_values"), b))
+    es = msgs(s)
+    if len(es) == 0:
+        return Not(live) & unchanged(s, new)
+    n2 = old._current_ballot.number + 1
+    pv_old, pv_new = field_term(old, "_proposed_values"), field_term(new, "_proposed_values")
+    bt = own_ballot(new, n2)
+    return (live & mk_bool(bt_eq(ballot_term(new._current_ballot), bt))
+            # A4: the fresh ballot carries exactly the value registered for the abandoned one
+            & mk_bool(z3.And(map_has(SENT, pv_new, n2), map_val(SENT, pv_new, n2) == map_val(SENT, pv_old, b),
+                             z3.Not(map_has(SENT, pv_new, b))))
+            & Not(mk_bool(map_has(SENT, sent_accept(new), n2)))
+            & prepares_ok(s, es, bt))
+
+
+per_cluster_size("_handle_retry", args={"event": Ref(Event)}, uses=[BALLOT_GE],
+   requires=[("well-formed-retry", lambda s: mhas(md(s.event), "original_ballot"))],
+   ensures=[
+    ("a-live-proposal-moves-to-a-fresh-higher-ballot-with-its-value-and-prepares-it--else-nothing-happens", _retry_post),
+    ("accepted-learner-and-offers-untouched", lambda s: unchanged(
+        s, s.self, "_accepted_ballot", "_accepted_value", "_decided", "_decided_value", "_accept_sent", "_phase2_acceptors"))])
+
+
+# ============================================================================ C. quorum intersection
+def _quorum_lemmas():
+    # pigeonhole over a cluster of n <= 5 nodes: membership of the two quorums as 0/1 indicator variables
+    n = fresh(Int, "n")
+    assume((3 <= n) & (n <= 5))
+    A = [fresh(Bool, f"a{i}") for i in range(5)]
+    B = [fresh(Bool, f"b{i}") for i in range(5)]
+
+    def card(X):
+        t = 0
+        for i, x in enumerate(X):
+            t = t + ite(x & (i < n), 1, 0)
+        return t
+    inter = sym_or(*[A[i] & B[i] & (i < n) for i in range(5)])
+    q = mk_num(num(n) / 2 + 1)
+    oblige("two-majorities-of-a-cluster-share-a-node", implies((card(A) >= q) & (card(B) >= q), inter))
+    # Flexible Paxos: any phase-1 quorum meets any phase-2 quorum as soon as q1 + q2 > n
+    q1, q2 = fresh(Int, "q1"), fresh(Int, "q2")
+    assume(q1 + q2 > n)
+    oblige("flexible-phase-1-and-phase-2-quorums-share-a-node", implies((card(A) >= q1) & (card(B) >= q2), inter))
+    # ... and that condition is tight: with q1 + q2 <= n two disjoint quorums exist (so the constructor must refuse)
+    oblige("majority-is-an-intersecting-choice", q + q > n)
+
+
+lemma("quorums-intersect", _quorum_lemmas)
+
+from happysimulator.components.consensus.flexible_paxos import FlexiblePaxosNode  # noqa: E402
+from happysimulator.components.consensus.log import Log  # noqa: E402
+from happysimulator.components.consensus.raft_state_machine import KVStateMachine  # noqa: E402
+
+cls(KVStateMachine, fields={"_data": Map(Str, Any)})
+cls(Log, fields={"_entries": Seq(Any), "commit_index": Int})
+FNODE = Ref(FlexiblePaxosNode)
+cls(FlexiblePaxosNode, fields={
+    "_network": Ref(Network), "_peers": Seq(FNODE), "_state_machine": Ref(KVStateMachine), "_heartbeat_interval": Real,
+    "_phase1_quorum": Int, "_phase2_quorum": Int, "_log": Ref(Log), "_last_applied": Int, "_current_ballot": BALLOT,
+    "_leader": OPTSTR, "_is_leader": Bool, "_slot_futures": FUTS, "_slot_acks": Map(Int, Int),
+    "_pending_commands": Seq(Tuple(Any, Ref(SimFuture))), "_phase1_responses": Map(Int, Seq(Any)),
+    "_heartbeat_event": OptRef(Event), "_commands_committed": Int},
+    inv=[("phase-1-and-phase-2-quorums-intersect", lambda o: o._phase1_quorum + o._phase2_quorum > slen(o._peers) + 1)])
+
+
+def _flex_ctor_post(s):
+    n = slen(s.self._peers) + 1
+    q1 = s.self._phase1_quorum
+    q2 = s.self._phase2_quorum
+    return ((q1 == (n // 2 + 1 if s.phase1_quorum is None else s.phase1_quorum))
+            & (q2 == (n // 2 + 1 if s.phase2_quorum is None else s.phase2_quorum))
+            & (q1 + q2 > n) & Not(s.self._is_leader) & (s.self._last_applied == 0))
+
+
+_ENTITY_INIT = Entity.__init__
+
+
+def _attached_entity_init(s):
+    """Entity.__init__ leaves `_clock = None` until the simulation attaches the entity; specs/common.py types
+    `_clock` as always attached (listed assumption), so for constructor contracts the base initialiser is
+    reduced to its other statement (`self.name = name`)"""
+    def init(self, name):
+        self.name = name
+    Entity.__init__ = init
+
+
+def _restore_entity_init(_s):
+    Entity.__init__ = _ENTITY_INIT
+
+
+ctor(FlexiblePaxosNode, args={"name": Str, "network": Ref(Network), "peers": Seq(FNODE), "state_machine": Ref(KVStateMachine),
+                              "phase1_quorum": OPTINT, "phase2_quorum": OPTINT},
+     setup=_attached_entity_init, teardown=_restore_entity_init,
+     ensures=[("configured-or-majority-quorums--intersecting", _flex_ctor_post)],
+     raises={ValueError: [("refuses-exactly-the-non-intersecting-quorum-sizes", lambda s: (
+         (slen(s.peers) // 2 + 1 if s.phase1_quorum is None else s.phase1_quorum)
+         + (slen(s.peers) // 2 + 1 if s.phase2_quorum is None else s.phase2_quorum) <= slen(s.peers) + 1))]})
+
+fn(FlexiblePaxosNode, "phase1_quorum", returns=Int, modifies=[], ensures=[
+    ("is-the-configured-size", lambda s: s.result == s.self._phase1_quorum), ("pure", lambda s: unchanged(s, s.self))])
+fn(FlexiblePaxosNode, "phase2_quorum", returns=Int, modifies=[], ensures=[
+    ("is-the-configured-size", lambda s: s.result == s.self._phase2_quorum), ("pure", lambda s: unchanged(s, s.self))])
+
+# ============================================================================ D. distributed lock: fencing tokens
+from happysimulator.components.consensus.distributed_lock import DistributedLock, LockGrant, _LockState  # noqa: E402
+
+GRANT = valueclass("LockGrant", [LockGrant], [("lock_name", Str), ("fencing_token", Int), ("holder", Str),
+                                              ("granted_at", Real), ("lease_duration", Real)])
+cls(_LockState, fields={"holder": OPTSTR, "fencing_token": Int, "granted_at": Real, "lease_duration": Real,
+                        "lease_event": OptRef(Event), "waiters": Seq(Tuple(Str, Ref(SimFuture)))})
+LOCKS = Map(Str, Ref(_LockState))
+
+
+def lock_token(o, name_t):
+    """raw Int term: fencing token recorded in the state of the lock named by raw string term name_t"""
+    ref = z3.Select(LOCKS.dt.val(field_term(o, "_locks")), name_t)
+    return field_term(ObjProxy(ref, _LockState, o._frozen), "fencing_token")
+
+
+def tokens_below_counter(o):
+    return forall(Str, lambda n: implies(mk_bool(z3.Select(LOCKS.dt.dom(field_term(o, "_locks")), n.t)),
+                                         mk_bool(lock_token(o, n.t) < num(o._next_token))), "n")
+
+
+cls(DistributedLock, fields={"_lease_duration": Real, "_max_waiters": Int, "_locks": LOCKS, "_next_token": Int,
+                             "_total_acquires": Int, "_total_releases": Int, "_total_expirations": Int,
+                             "_total_rejections": Int, "_pending_expiry": OptRef(Event)},
+    inv=[("token-counter-positive", lambda o: o._next_token >= 1),
+         ("every-recorded-token-is-below-the-counter", tokens_below_counter)],
+    guarantee=[("token-counter-never-decreases", lambda old, new: new._next_token >= old._next_token)])
+
+
+def _grant_post(s):
+    old = s.old(s.self)
+    r = s.result
+    return ((r.fencing_token == old._next_token) & (s.self._next_token == old._next_token + 1)
+            & (s.state.fencing_token == r.fencing_token) & (r.holder == s.requester) & (r.lock_name == s.lock_name)
+            & mk_bool(field_term(s.state, "holder") == OPTSTR.dt.some(zs(s.requester))))
+
+
+fn(DistributedLock, "_grant_lock", args={"state": Ref(_LockState), "lock_name": Str, "requester": Str},
+   requires=[("state-of-a-lock-of-this-manager-or-fresh", lambda s: s.state.fencing_token < s.self._next_token),
+             ("lease-nonnegative", lambda s: s.self._lease_duration >= 0)],
+   ensures=[
+    ("grant-carries-a-fresh-token-above-every-earlier-one-and-the-counter-moves-on", _grant_post),
+    ("token-strictly-above-the-locks-previous-token", lambda s: s.result.fencing_token > s.old(s.state).fencing_token)])
+
+
+def _try_acquire_post(s):
+    old = s.old(s.self)
+    r = s.result
+    if r is None:
+        return unchanged(s, s.self, "_next_token")
+    fresh_grant = (r.fencing_token == old._next_token) & (s.self._next_token == old._next_token + 1)
+    reentrant = (r.fencing_token < old._next_token) & (s.self._next_token == old._next_token)
+    return (fresh_grant | reentrant) & (r.holder == s.requester) & (r.lock_name == s.lock_name)
+
+
+fn(DistributedLock, "try_acquire", args={"lock_name": Str, "requester": Str},
+   requires=[("lease-nonnegative", lambda s: s.self._lease_duration >= 0)],
+   ensures=[
+    ("a-grant-carries-either-a-fresh-token-above-all-earlier-ones-or-the-holders-own-current-token", _try_acquire_post)])
